@@ -31,7 +31,7 @@ package gitstore
 //@ func ext:(pkg/gitstore.Storer).GetReference -> (h, err)
 //@   trusted
 //@   assigns ghost faults
-//@   ensures err == nil ==> refSet[refName] && h == refTip[refName] && objSet[h] && len(h) > 0
+//@   ensures err == nil ==> refSet[refName] && h == refTip[refName] && objSet[h] && len(h) > 0 && !h.IsZero()
 //@   ensures !refSet[refName] ==> err != nil
 //@   ensures errIs(err, ErrReferenceNotFound) ==> !refSet[refName]
 //@   ensures err != nil ==> len(h) == 0
@@ -89,9 +89,12 @@ package gitstore
 //@   ensures err == nil && !old(refSet)[targetRef] ==> cnpar(h) == 0
 //@   ensures faults == old(faults) + ite(err != nil, 1, 0)
 
+//@ # anc(c, a): a is an ancestor of (or equal to) c in the commit graph
+//@ spec anc(c Hash, a Hash) bool
 //@ func ext:(pkg/gitstore.Storer).KnowsCommit -> (knows, err)
 //@   trusted
-//@   pure
+//@   assigns ghost faults
+//@   ensures err == nil ==> knows == anc(commitID, ancestorID)
 //@   ensures faults == old(faults) + ite(err != nil, 1, 0)
 
 //@ func ext:(pkg/gitstore.Storer).SetReference -> (err)
@@ -119,4 +122,16 @@ package gitstore
 //@ func ext:(pkg/gitstore.Storer).LookupConfig -> (value, ok, err)
 //@   trusted
 //@   assigns ghost faults
+//@   ensures faults == old(faults) + ite(err != nil, 1, 0)
+
+//@ # ResetDueToError: force-resets the reference and returns the cause (wrapped if the reset itself fails)
+//@ func ext:(pkg/gitstore.Storer).ResetDueToError -> (r)
+//@   trusted
+//@   assigns ghost faults, ghost refTip, ghost refSet
+//@   ensures r != nil
+//@   ensures (refTip == upd(old(refTip), refName, commitID) && refSet == upd(old(refSet), refName, true) && faults == old(faults)) || (refTip == old(refTip) && refSet == old(refSet) && faults == old(faults) + 1)
+
+//@ func ext:(pkg/gitstore.Storer).WriteTree -> (id, err)
+//@   trusted
+//@   assigns ghost faults, ghost objSet
 //@   ensures faults == old(faults) + ite(err != nil, 1, 0)
